@@ -196,6 +196,8 @@ def decorations(v, modname, tier, rng, pool=None):
         for b in ('-', '_', '.', '/', ' '):
             yield ('surround2', v + a + b)
             yield ('surround2', b + a + v)
+            if len(v) > 3:
+                yield ('surround2', v[:-1] + a + b)     # the blank in the place of the last character
     for padch in (' ', '-', '.'):
         yield ('padded', padch * 70 + v)
         yield ('padded', v + padch * 70)
